@@ -365,6 +365,15 @@ FAMILIES = {
               {'comment_start': '%%'}, {'comment_start': '%'}, {'forbidden_characters': 'a$'},
               {'forbidden_characters': ''}, {'macro_alpha_chars': 'a@'},
               {'macro_alpha_chars': 'abcdefghijklmnopqrstuvwxyzABCDEFGHIJKLMNOPQRSTUVWXYZ'}],
+    # a delimiter pair moved between the inline and the display list in one call (the two lists
+    # concatenated stay the same sequence)
+    'moved': [{'latex_inline_math_delimiters': i, 'latex_display_math_delimiters': d}
+              for i, d in (([['$', '$'], ['\\(', '\\)'], ['$$', '$$']], [['\\[', '\\]']]),
+                           ([['$', '$']], [['\\(', '\\)'], ['$$', '$$'], ['\\[', '\\]']]),
+                           ([], [['$', '$'], ['\\(', '\\)'], ['$$', '$$'], ['\\[', '\\]']]),
+                           ([['$', '$'], ['\\(', '\\)'], ['$$', '$$'], ['\\[', '\\]']], []),
+                           ([['$', '$'], ['\\(', '\\)']], [['$$', '$$'], ['\\[', '\\]']]))] + [
+        {'in_math_mode': True, 'math_mode_delimiter': '$'}, {}],
     # the context database (the tokenizer asks it for specials) replaced, removed, restored,
     # between steps that rebuild or inherit the cached tables
     'context': [{'latex_context': 'ctx:every'}, {'latex_context': 'ctx:default'},
@@ -386,7 +395,8 @@ def plan(tier, seed):
                                  'delimiter-list-changed-while-in-math', 'no-op-step',
                                  'non-trivial', 'enumerated-chain', 'family:group',
                                  'family:inline', 'family:display', 'family:flags',
-                                 'family:chars', 'family:context', 'changed:X']}
+                                 'family:chars', 'family:context', 'family:moved',
+                                 'changed:X']}
 
 
 def strings_for(chain, L):
